@@ -278,9 +278,11 @@ fn create_semantic_token(
     token_modifier: u32,
 ) -> SemanticToken {
     let Position { line, character } = as_position(token.range.start, text);
-    let length = token
-        .range
-        .len()
+    // LSP lengths are UTF-16 code units; a comment token's line terminator is not part of it
+    let length = text[token.range.clone()]
+        .trim_end_matches(['\n', '\r'])
+        .encode_utf16()
+        .count()
         .try_into()
         .expect("Cannot convert range length to u32");
     let delta_line = line - previous_token_pos.line;
